@@ -156,7 +156,9 @@ type ConvError struct {
 	Line     int
 }
 
-var errHead = regexp.MustCompile(`^(?:conversion failed: )?\[([a-z()\-]+)\]: (.*)$`)
+// the head line of an error block: "[category]: message", possibly after a prefix such as
+// "conversion failed: " or the name of the package
+var errHead = regexp.MustCompile(`^(?:[^\[\]]*: )?\[([a-z()\-]+)\]: (.*)$`)
 var errSrc = regexp.MustCompile(`^\s+src: (.*?):(\d+):(\d+)$`)
 
 func parseErrors(stderr string) []ConvError {
